@@ -7,6 +7,7 @@ from .common import bits, unbits, rng
 from .hw import pmap
 
 from amaranth import Module
+from amaranth.hdl import Fragment
 from amaranth.lib import wiring
 from amaranth_soc import csr, event
 from amaranth_soc.csr.event import EventMonitor
@@ -46,6 +47,15 @@ class Adapter:
         for s in srcs:
             em.add(s)
         mon = EventMonitor(em, trigger=cfg.get("trigger", "level"), data_width=cfg["dw"], alignment=cfg["al"])
+        if n >= 100:
+            # a monitor with many events must still be hardware (an elaboration that dies is not "for any number")
+            em2 = event.EventMap()
+            for k in range(n):
+                em2.add(event.Source(trigger=cfg["modes"][k]))
+            try:
+                Fragment.get(EventMonitor(em2, trigger=cfg.get("trigger", "level"), data_width=cfg["dw"], alignment=cfg["al"]), None)
+            except RecursionError as e:
+                raise common.Violation("large-monitor", f"an EventMonitor with {n} events cannot be elaborated: RecursionError")
         got = [{"start": ri.start, "stop": ri.end} for ri in mon.bus.memory_map.all_resources()]
         names = [tuple(ri.path[-1]) for ri in mon.bus.memory_map.all_resources()]
         if got != cfg["regs"] or names != [("enable",), ("pending",)]:
@@ -99,6 +109,9 @@ class Adapter:
     def random_cfg(self, r):
         n = r.choice([0, 1, 2, 3, 5, 8, 9, 16, 20])
         dw = r.choice([1, 2, 4, 8, 8, 16, 32])
+        self._count = getattr(self, "_count", 0) + 1
+        if self._count % 24 == 5:
+            n, dw = r.choice([150, 200, 260]), r.choice([8, 32])      # scale: "any number of events"
         al = r.choice([0, 0, 1, 2])
         modes = [r.choice(["level", "rise", "fall"]) for _ in range(n)]
         em = event.EventMap()
